@@ -64,6 +64,10 @@ _Task.__init__.__globals__['_register_task'] = lambda t: None
 class running:
     def __init__(self): self.loop = DetLoop()
     def __enter__(self):
+        # code under test asks isinstance(x, asyncio.Task) (utils.cancel_on_event): our tasks are the pure-Python class
+        self._saved = (asyncio.Task, tasks.Task)
+        asyncio.Task = tasks.Task = tasks._PyTask
         events._set_running_loop(self.loop); return self.loop
     def __exit__(self, *a):
         events._set_running_loop(None)
+        asyncio.Task, tasks.Task = self._saved
